@@ -21,5 +21,120 @@ pub fn run(ctx: &Ctx) -> u64 {
             Ok(Err(_)) => {}
         }
     }
+    n += tdigest_variants(ctx);
+    n
+}
+
+/// t-digest: native f64 / f32, reference-implementation double / float (big-endian), empty /
+/// single / multi / with-buffered-values forms, reverse_merge flag, plus the two on-disk
+/// reference files. The restored digest must hold the encoded centroids (total weight, min, max,
+/// k) and answer rank/quantile as the encoded centroid list requires (reference formulas).
+fn tdigest_variants(ctx: &Ctx) -> u64 {
+    use crate::tdm::{self, Enc, TdImage};
+    use datasketches::tdigest::TDigestMut;
+    let mut n = 0;
+    let lists: Vec<(f64, f64, Vec<(f64, u64)>, Vec<f64>)> = vec![
+        (0.0, 0.0, vec![], vec![]),
+        (5.0, 5.0, vec![(5.0, 1)], vec![]),
+        (1.0, 4.0, vec![(1.0, 1), (2.0, 3), (3.5, 2), (4.0, 1)], vec![]),
+        (-3.0, 9.0, vec![(-3.0, 1), (0.0, 10), (2.0, 40), (7.0, 5), (9.0, 1)], vec![]),
+        (0.0, 100.0, (0..60).map(|i| (i as f64 * 100.0 / 59.0, 1 + (i % 4) as u64)).collect(), vec![]),
+        (1.0, 4.0, vec![(1.0, 1), (2.0, 3), (4.0, 1)], vec![2.5, 3.0, 1.5]),
+    ];
+    for (min, max, cents, buffered) in &lists {
+        for enc in Enc::ALL {
+            for k in [10u16, 100, 200] {
+                for rev in [false, true] {
+                    if !enc.native() && (rev || !buffered.is_empty() || cents.is_empty()) {
+                        continue;
+                    }
+                    let mut img = TdImage { enc, k, flags: if rev { tdm::FLAG_REVERSE } else { 0 }, min: *min, max: *max, centroids: cents.clone(), buffered: buffered.clone() };
+                    if enc.is_f32() || enc == Enc::RefFloat {
+                        // representable values only
+                        img.centroids.iter_mut().for_each(|c| c.0 = c.0 as f32 as f64);
+                    }
+                    let bytes = tdm::encode(&img, false);
+                    let variant = json!({"kind":"image","family":"tdigest","encoding":enc.name(),"k":k,"reverse_merge":rev,"centroids":img.centroids.len(),"buffered":buffered.len(),"image_hex":crate::common::hex(&bytes)});
+                    n += 1;
+                    let mut d = match catch(|| TDigestMut::deserialize(&bytes, enc.is_f32())) {
+                        Err(p) => {
+                            ctx.violation(&format!("panic|{}", p.site_key()), &format!("t-digest deserialize ({}) panicked: {}", enc.name(), p.message), variant);
+                            continue;
+                        }
+                        Ok(Err(e)) => {
+                            ctx.violation(&format!("td.variant.rejected.{}", enc.name().replace(' ', "_")), &format!("valid image rejected: {e}"), variant);
+                            continue;
+                        }
+                        Ok(Ok(d)) => d,
+                    };
+                    let want_w = img.total_weight();
+                    let mut bad = vec![];
+                    if d.total_weight() != want_w {
+                        bad.push(("td.variant.total_weight", format!("total_weight {} but the image encodes {}", d.total_weight(), want_w)));
+                    }
+                    if d.is_empty() != (want_w == 0) {
+                        bad.push(("td.variant.is_empty", format!("is_empty {} for total weight {want_w}", d.is_empty())));
+                    }
+                    if want_w > 0 {
+                        let (emin, emax) = if buffered.is_empty() { (*min, *max) } else { (buffered.iter().cloned().fold(*min, f64::min), buffered.iter().cloned().fold(*max, f64::max)) };
+                        if d.min_value() != Some(emin) || d.max_value() != Some(emax) {
+                            bad.push(("td.variant.min_max", format!("min/max {:?}/{:?} but the image encodes {emin}/{emax}", d.min_value(), d.max_value())));
+                        }
+                        if enc.native() && d.k() != k {
+                            bad.push(("td.variant.k", format!("k {} but the image encodes {k}", d.k())));
+                        }
+                        // rank/quantile as the encoded centroid list requires (no buffered values)
+                        if buffered.is_empty() && bad.is_empty() {
+                            let r = tdm::RefDigest::new(*min, *max, &img.centroids);
+                            for i in 0..=16 {
+                                let q = i as f64 / 16.0;
+                                let v = min + (max - min) * q;
+                                let (gr, wr) = (d.rank(v).unwrap_or(f64::NAN), r.get_rank(v));
+                                let (gq, wq) = (d.quantile(q).unwrap_or(f64::NAN), r.get_quantile(q));
+                                if (gr - wr).abs() > 1e-9 || ((gq - wq).abs() > 1e-9 * (1.0 + wq.abs()) && !wq.is_nan()) {
+                                    bad.push(("td.variant.rank_quantile", format!("rank({v}) = {gr} (reference {wr}), quantile({q}) = {gq} (reference {wq})")));
+                                    break;
+                                }
+                            }
+                        }
+                    }
+                    // re-serialization decodes to the same abstract state
+                    if bad.is_empty() {
+                        match tdm::decode(&d.serialize()) {
+                            Ok(im2) => {
+                                if im2.total_weight() != want_w {
+                                    bad.push(("td.variant.reserialize", "re-serialized image has a different total weight".to_string()));
+                                }
+                                if buffered.is_empty() && want_w > 1 && im2.centroids != img.centroids {
+                                    bad.push(("td.variant.reserialize", "re-serialized image has different centroids".to_string()));
+                                }
+                            }
+                            Err(e) => bad.push(("td.variant.reserialize", format!("re-serialized image undecodable: {e}"))),
+                        }
+                    }
+                    for (k, w) in bad {
+                        ctx.violation(k, &format!("{} k={} : {w}", enc.name(), img.k), variant.clone());
+                    }
+                }
+            }
+        }
+    }
+    // the two foreign files that exist offline
+    for (file, is_f32) in [("tdigest_ref_k100_n10000_double.sk", false), ("tdigest_ref_k100_n10000_float.sk", false)] {
+        if let Ok(bytes) = std::fs::read(format!("/repo/datasketches/tests/test_data/{file}")) {
+            n += 1;
+            match (catch(|| TDigestMut::deserialize(&bytes, is_f32)), tdm::decode(&bytes)) {
+                (Ok(Ok(mut d)), Ok(im)) => {
+                    if d.total_weight() != im.total_weight() || d.min_value() != Some(im.min) || d.max_value() != Some(im.max) {
+                        ctx.violation("td.variant.reference_file", &format!("{file}: total/min/max {}/{:?}/{:?} but the spec decoder reads {}/{}/{}", d.total_weight(), d.min_value(), d.max_value(), im.total_weight(), im.min, im.max), json!({"kind":"file","file":file}));
+                    }
+                    let _ = d.quantile(0.5);
+                }
+                (a, b) => {
+                    ctx.violation("td.variant.reference_file", &format!("{file}: library {:?}, spec decoder {:?}", a.map(|r| r.map(|_| ()).map_err(|e| e.to_string())).map_err(|p| p.message), b.map(|_| ())), json!({"kind":"file","file":file}));
+                }
+            }
+        }
+    }
     n
 }
